@@ -11,7 +11,8 @@ VERIF = os.path.dirname(os.path.dirname(os.path.abspath(__file__)))
 SPEC = os.path.join(VERIF, "spec")
 HARNESS = os.path.join(VERIF, "harness")
 WORK = os.path.join(VERIF, "work")
-EVID = os.path.join(VERIF, "evidence")
+EVID = os.environ.get("VERIF_EVID_DIR") or os.path.join(VERIF, "evidence")   # seeded-change runs write elsewhere
+REPLAY = os.environ.get("VERIF_REPLAY_DIR") or os.path.join(VERIF, "replay")
 VH = os.path.join(HARNESS, "target", "debug", "vh")
 KNOWN = os.path.join(VERIF, "known_findings.json")
 
@@ -57,7 +58,8 @@ class Check:
         self.work = os.path.join(WORK, pid)
         shutil.rmtree(self.work, ignore_errors=True)
         os.makedirs(self.work, exist_ok=True)
-        os.makedirs(os.path.join(VERIF, "replay"), exist_ok=True)
+        os.makedirs(REPLAY, exist_ok=True)
+        os.makedirs(EVID, exist_ok=True)
         os.makedirs(EVID, exist_ok=True)
         self.violations = 0
         self.known_hits = []
@@ -225,7 +227,7 @@ class Check:
         self.violations += 1
         if self.violations <= 20:
             h = hashlib.sha1(json.dumps(case, sort_keys=True, default=str).encode()).hexdigest()[:10]
-            path = os.path.join(VERIF, "replay", "%s-%s.json" % (self.pid, h))
+            path = os.path.join(REPLAY, "%s-%s.json" % (self.pid, h))
             json.dump({"property": self.pid, "what": what, "fingerprint": fp, "case": case,
                        "seed": self.seed, "tier": self.tier}, open(path, "w"), indent=1, default=str)
             log("VIOLATION property=%s replay=%s" % (self.pid, path))
